@@ -172,6 +172,15 @@ func (s *WriterOffline) Close() error {
 		return fmt.Errorf("error while merging: %w", err)
 	}
 
+	if len(s.segIDs) == 0 {
+		// nothing was indexed, record an empty snapshot so the index can be opened
+		err = s.directory.Persist(ItemKindSnapshot, 0, &Snapshot{}, nil)
+		if err != nil {
+			return fmt.Errorf("error recording snapshot: %w", err)
+		}
+		return nil
+	}
+
 	// open the merged segment
 	data, closer, err := s.directory.Load(ItemKindSegment, s.segIDs[0])
 	if err != nil {
